@@ -3,11 +3,12 @@
                            eval_number returns Integer(v) whenever eval_i64 returns Ok(v) (embedding of trees)
       C15_shared_grammar   the token tables of eval_f64 and eval_number are the same (same lexer rows, same
                            precedences, same function table), so both parse every input to trees of the same shape
-      C15_number_f64_ring  on every tree over literals / the placeholder, unary minus, + - * whose f64 evaluation keeps
-                           every intermediate finite, below 2^53 in magnitude and not -0, eval_number's numeric value
-                           is exactly eval_f64's result (Flocq: sums, differences and products of integers below 2^53
-                           are the correctly rounded results, signs of zero included)
-    The other numeric clauses (eval_number vs eval_f64 on / % ^ and functions, eval_complex and eval_decimal vs
+      C15_number_f64_ring  on every tree over literals / the placeholder, unary minus, + - * / % whose f64 evaluation
+                           keeps every intermediate finite, below 2^53 in magnitude and not -0, eval_number's numeric
+                           value is exactly eval_f64's result (Flocq: sums, differences, products, exact quotients and
+                           remainders of integers below 2^53 are the images of the exact integer results, signs of
+                           zero included; inexact quotients and every Float operand go through the same IEEE operation)
+    The other numeric clauses (eval_number vs eval_f64 on ^ and functions, eval_complex and eval_decimal vs
     eval_f64 within 1e-9) compare floating-point / library results: tested on every run by evaluating one
     rendering with two or more evaluators (exploration-level support), not proved. *)
 From Coq Require Import List ZArith Bool.
